@@ -66,7 +66,7 @@ def verify_keymap() -> None:
 
 def rs_setup_ops(scn: Dict[str, Any], slot: int = 0) -> List[list]:
     ops: List[list] = [["m.new", slot, {"por": bool(scn.get("por")), "pce500_map": bool(scn.get("pce500_map")),
-                                        "expand": rs_expand(scn)}]]
+                                        "expand": rs_expand(scn), "device": scn.get("device")}]]
     rom = [0] * ROM_SIZE
     tail = scn["prog"]["rom_tail"]
     rom[ROM_SIZE - 6:] = tail
@@ -108,7 +108,7 @@ def rs_event(op: list, slot: int, scn: Dict[str, Any], scratch: str) -> List[lis
     if kind == "rewind":
         return [[at, "m.rewind", slot, os.path.join(scratch, f"snap-{os.getpid()}-{at}.pcsnap"), int(op[2])]]
     if kind == "scramble":
-        return [[at, "m.scramble", slot, op[2], op[3], op[4], op[5]]]
+        return [[at, "m.scramble", slot, op[2], op[3], op[4], op[5]] + ([op[6]] if len(op) > 6 else [])]
     raise HarnessError(f"unknown machine op {kind}")
 
 
